@@ -26,7 +26,7 @@ let parse_op (s : string) : op =
   | _ -> failwith ("op: " ^ s)
 
 let show_res = function
-  | ROk -> "ok" | RRefused -> "ref"
+  | ROk -> "ok" | RNoop -> "ok" | RRefused -> "ref"
   | RFail l -> if l then "fail1" else "fail0"
   | RCrash l -> if l then "crash1" else "crash0"
 
@@ -77,12 +77,14 @@ let () =
       ^ Printf.sprintf " next:%d since:%d pend:%d pruned:%d" (i m.mnext) (i m.msince) (List.length m.mpend) (i m.mpruned));
     let mo = reopen_obs d in
     print_endline ("model " ^ (match mo with None -> "err" | Some l -> show_ents l));
-    print_endline ("allowed " ^ show_ents (live s.sack) ^ " | " ^ show_ents (live (s.sack @ s.sinfl)));
     (match parse_obs obss with
-     | None -> print_endline "pred ? ?"
+     | None -> print_endline "allowed ? | ?"; print_endline "pred ? ?"
      | Some o ->
         let p = recover_ok s.sack s.sinfl o in
         let nr = (match o with None -> true | Some l -> no_revive_ok s.sack l) in
+        (* the two allowed results are only needed to describe a failure *)
+        if p then print_endline "allowed ? | ?"
+        else print_endline ("allowed " ^ show_ents (live s.sack) ^ " | " ^ show_ents (live (s.sack @ s.sinfl)));
         print_endline (Printf.sprintf "pred %d %d" (if p then 1 else 0) (if nr then 1 else 0)));
     print_endline ("live " ^ (if m.mdead || m.mclosed then "dead" else show_ents (load m)));
     Stdlib.flush stdout)
